@@ -111,6 +111,8 @@ def bounded(ctx):
             rec = CircularRecord(Seq(s), id="rid", name="rname", description="d", features=bc.build_features(feats),
                                  annotations={"topology": "circular", "molecule_type": "DNA", "k": [1]},
                                  letter_annotations=la)
+            if ti % 2:
+                bc.preuse(rec, ns)       # every other record has been searched / sliced / rotated before
             base = bc.observe(rec)
             for k in range(-2 * n, 3 * n + 1):
                 evals += 1
